@@ -219,6 +219,29 @@ class StateWorld(Run):
             gens = rm.rand_commuting_independent(rng, n, cnt)
             op["gens"] = sut.strs(gens)
             u = rng.random()
+            if n >= 3 and rng.random() < 0.15:
+                # a one-qubit operator hidden in the group as the product of several generators that
+                # overlap (and do not commute site by site) on the OTHER qubits:
+                # g1 = (l on q) * R_1 * ... * R_k,  g_i = R_i
+                q = rng.randrange(n)
+                rest = [i for i in range(n) if i != q]
+                k = rng.randrange(2, min(n - 1, 4) + 1)
+                rs = rm.rand_commuting_independent(rng, n - 1, k)
+                emb = []
+                for (ls, ph) in rs:
+                    full = [0] * n
+                    for i, a in zip(rest, ls):
+                        full[i] = a
+                    emb.append((tuple(full), ph))
+                g1 = (tuple(rng.choice((1, 2, 3)) if i == q else 0 for i in range(n)), rng.choice((0, 2)))
+                for e in emb:
+                    g1 = rm.pmul(g1, e)
+                if rm.hermitian(g1):
+                    gens = [g1] + emb
+                    rng.shuffle(gens)
+                    op["gens"] = sut.strs(gens)
+                    op["hidden_local"] = q
+                    u = 1.0
             if u < 0.25:
                 op["form"] = "strings"      # stabilizer_state("-XZ", "ZX"): parsed by paulis(...)
             elif u < 0.40:
@@ -541,9 +564,17 @@ class StateWorld(Run):
         while len(obs) < L and tries < 60:
             tries += 1
             kind = rng.choice(["grp", "rand", "rand", "logical", "destab", "both", "repeat",
-                               "prod", "ident", "z"])
+                               "prod", "ident", "z", "lowweight"])
             if kind == "grp":
                 l = rng.choice(grp)
+            elif kind == "lowweight":
+                # a determined observable acting on as few qubits as the group allows (on wide
+                # registers the generators it is a product of overlap elsewhere)
+                cand = [g for g in grp if any(g)]
+                if not cand:
+                    continue
+                w = min(sum(1 for a in g if a) for g in cand)
+                l = rng.choice([g for g in cand if sum(1 for a in g if a) == w])
             elif kind == "rand":
                 l = rm.rand_letters(rng, n)
             elif kind == "z":
